@@ -1,2 +1,82 @@
-/- stub: line-protocol driver for C09 (to be written) -/
-def main : IO Unit := pure ()
+/- Line-protocol driver of the C09 models (lexer model over the generated tables, operator-trace model).
+   One op per input line, one canonical line out.  Payloads are hex encoded.
+     lex <mask> <types|-> <hex>      lexemes of the text:  start:end:rule:tokens  separated by ' '
+     toks <mask> <types|-> <hex>     token stream only
+     hyp <mask> <types|-> <hex>      does the text satisfy the hypotheses of `C09.lex_render` (Renderable)?
+     trace <mask> <types|-> <hex>    callback trace of the operator-precedence model on the token stream (or `unsupported`)
+-/
+import UtapModel.Model.C09Lex
+import UtapModel.Model.C09Ops
+import UtapModel.Gen.C09Tables
+open UtapModel.C09
+
+def hexVal (c : Char) : Nat :=
+  if '0' ≤ c ∧ c ≤ '9' then c.toNat - 48 else if 'a' ≤ c ∧ c ≤ 'f' then c.toNat - 87 else if 'A' ≤ c ∧ c ≤ 'F' then c.toNat - 55 else 0
+
+def unhex : List Char → List Nat
+  | a :: b :: r => (hexVal a * 16 + hexVal b) :: unhex r
+  | _ => []
+
+def showChs (s : List Ch) : String := String.ofList (s.map Char.ofNat)
+
+def hexOf (s : List Ch) : String :=
+  let d (n : Nat) : Char := if n < 10 then Char.ofNat (48 + n) else Char.ofNat (87 + n)
+  String.ofList (s.flatMap fun c => [d (c / 16), d (c % 16)])
+
+def tokName (t : TokId) : String := (Gen.tokNames[t]?).getD "?"
+
+def showTok : Tok → String
+  | .lit t => tokName t
+  | .id s => "T_ID=" ++ hexOf s
+  | .typename s => "T_TYPENAME=" ++ hexOf s
+  | .nat n => "T_NAT=" ++ toString n
+  | .posNegMax => "T_POS_NEG_MAX"
+  | .overflow => "ERR_OVERFLOW"
+  | .float s => "T_FLOATING=" ++ hexOf s
+  | .str s => "T_CHARARR=" ++ hexOf s
+  | .unknown => "ERR_UNKNOWN"
+  | .newline => "NL"
+  | .tooLong => "ERR_TOOLONG"
+  | .commentNotClosed => "ERR_COMMENT"
+  | .expect s => "EXPECT=" ++ hexOf s
+
+def mkCfg (mask : Nat) (types : List (List Ch)) : Cfg :=
+  { rules := Gen.rules, kws := Gen.keywordTable, maxLen := Gen.maxLen, mask := mask,
+    bitOld := Gen.bitOLD, bitProperty := Gen.bitPROPERTY, bitProb := Gen.bitPROB,
+    tConst := Gen.T_CONST, tOldConst := Gen.T_OLDCONST,
+    isType := fun _ w => types.contains w }
+
+def genTables : Tables :=
+  { levels := Gen.precLevels, binary := Gen.binaryProds, unary := Gen.unaryProds, assign := Gen.assignProds,
+    nonTypeId := Gen.nonTypeId, kindNames := Gen.kindNames, tokNames := Gen.tokNames }
+
+def parseTypes (s : String) : List (List Ch) :=
+  if s == "-" then [] else (s.splitOn ",").map (fun x => x.toList.map Char.toNat)
+
+def stepLine (line : String) : String :=
+  let ws := (line.trimAscii.toString.splitOn " ").filter (· ≠ "")
+  match ws with
+  | [op, mask, types, hex] =>
+    let cfg := mkCfg mask.toNat! (parseTypes types)
+    let s := unhex hex.toList
+    if op == "lex" then
+      let ls := lexemesGo cfg (s.length + 1) false 0 0 s
+      " ".intercalate (ls.map fun (a, b, r, ts) => s!"{a}:{b}:{r}:" ++ ",".intercalate (ts.map showTok))
+    else if op == "toks" then
+      " ".intercalate ((lex cfg s).map showTok)
+    else if op == "trace" then
+      match opsTraceT genTables (lex cfg s) with
+      | some tr => " ".intercalate tr
+      | none => "unsupported"
+    else "bad-op"
+  | _ => "bad-op"
+
+partial def loop (h : IO.FS.Stream) (out : IO.FS.Stream) : IO Unit := do
+  let line ← h.getLine
+  if line.isEmpty then return ()
+  out.putStrLn (stepLine line)
+  loop h out
+
+def main : IO Unit := do
+  let out ← IO.getStdout
+  loop (← IO.getStdin) out
